@@ -281,7 +281,7 @@ theorem one_unsatisfiable_witness :
     respond "bytes=0-1,5-6".toList [1, 2, 3] = .unsat ∧
     expected [.fromTo 0 1, .fromTo 5 6] 3 = .single (0, 2) := by decide
 
-/-- repaired (fix: c73ece4e): an ignored range request (oversized sum, empty list) serves the whole content -/
+/-- repaired (fix: 843c0161): an ignored range request (oversized sum, empty list) serves the whole content -/
 theorem ignored_range_serves_everything :
     respond "bytes=0-,0-".toList [1, 2, 3] = .full [1, 2, 3] ∧ respond "bytes=".toList [1, 2, 3] = .full [1, 2, 3] := by decide
 
